@@ -314,6 +314,84 @@ static void read_value(const V &v, std::string &o) {
     o += ";z"; o += std::to_string(v.Size());
 }
 
+// Getters that every kind answers (mostly with "nothing"), the non-const getter overloads, the
+// String-returning Stringify and operator<<.  Each answer is determined by the kind and by reads the
+// dump already compares with the model (they are overloads / alternative routes of the same
+// observations), so they print nothing when consistent and "!<tag>" otherwise.
+static void extra_reads(V &v, std::string &o) {
+    const V        &cv   = v;
+    const ValueType ty   = v.Type();
+    const bool      ptr  = (ty == ValueType::ValuePtr);
+    const bool      arr  = cv.IsArray();
+    const bool      obj  = cv.IsObject();
+    const bool      str  = cv.IsString();
+    const SizeT     n    = cv.Size();
+    // non-const getters do not follow a pointer
+    if ((v.GetString() != nullptr) != (ty == ValueType::String)) o += "!gs";
+    if ((ty == ValueType::String) && (v.GetString() != cv.GetString())) o += "!gs2";
+    if ((v.GetObject() != nullptr) != (ty == ValueType::Object)) o += "!go";
+    if ((v.GetArray() != nullptr) != (ty == ValueType::Array)) o += "!ga";
+    // const getters follow it
+    if ((cv.GetString() != nullptr) != str) o += "!cgs";
+    if ((cv.GetObject() != nullptr) != obj) o += "!cgo";
+    if ((cv.GetArray() != nullptr) != arr) o += "!cga";
+    if ((cv.StringStorage() != nullptr) != (str && cv.GetString()->First() != nullptr)) o += "!ss";
+    {
+        SV sv = cv.GetStringView();
+        if (sv.Length() != cv.Length() || (!str && (sv.Length() != 0 || sv.First() != nullptr))) o += "!sv";
+        if (str && sv.First() != cv.StringStorage()) o += "!sv2";
+    }
+    if (!str && cv.Length() != 0) o += "!len";
+    if (!arr && !obj) {
+        if (n != 0) o += "!size";
+        if (cv.GetValue(SizeT{0}) != nullptr || cv.GetValue(SizeT{3}) != nullptr) o += "!gvi";
+        const Ch k0[1] = {static_cast<Ch>('0')};
+        if (cv.GetValue(k0, SizeT{1}) != nullptr || cv.GetValue(SV(k0, SizeT{1})) != nullptr) o += "!gvk";
+        if (cv.First() != nullptr || cv.Last() != nullptr) o += "!fl";
+    }
+    if (!obj) {
+        const Ch *kp = nullptr;
+        SizeT     kl = 7;
+        if (cv.GetKey(SizeT{0}) != nullptr) o += "!gk";
+        if (cv.SetKeyCharAndLength(SizeT{0}, kp, kl) || kp != nullptr || kl != 7) o += "!skl";
+        StringStream<Ch> ks;
+        const bool       r = cv.CopyKeyByIndexTo(ks, SizeT{0});
+        if (r || ks.Length() != 0) o += "!ckt";
+    }
+    if (arr) {
+        // by index, by decimal key, first / last
+        if (n != 0 && (cv.First() == nullptr || cv.Last() != cv.First() + (n - 1))) o += "!afl";
+        if (n == 0 && cv.Last() != nullptr) o += "!afl0";
+        const Ch k1[1] = {static_cast<Ch>('1')};
+        if (cv.GetValue(k1, SizeT{1}) != cv.GetValue(SizeT{1})) o += "!gvd";
+        if (cv.GetValue(n) != nullptr) o += "!gvn";
+    }
+    if (obj) {
+        const typename V::ObjectT *op = cv.GetObject();
+        if (n == 0 && op->Capacity() == 0 && (cv.First() != nullptr || cv.Last() != nullptr)) o += "!ofl0";
+        if (n == 0 && cv.Last() != nullptr) o += "!ol0";
+        if (cv.GetValue(n) != nullptr || cv.GetKey(n) != nullptr) o += "!ogn";
+        const Ch *kp = nullptr;
+        SizeT     kl = 7;
+        if (cv.SetKeyCharAndLength(n, kp, kl) || kl != 7) o += "!oskl";
+        StringStream<Ch> ks;
+        if (!cv.CopyKeyByIndexTo(ks, n) || ks.Length() != 0) o += "!ockt";
+    }
+    // the three routes to the JSON text
+    {
+        StringStream<Ch> a;
+        cv.Stringify(a);
+        const St         b = cv.Stringify();
+        StringStream<Ch> c;
+        c << cv;
+        const St         d = cv.Stringify(Config::DoublePrecision);
+        if (b.Length() != a.Length() || !StringUtils::IsEqual(b.First(), a.First(), a.Length())) o += "!str1";
+        if (c.Length() != a.Length() || !StringUtils::IsEqual(c.First(), a.First(), a.Length())) o += "!str2";
+        if (d.Length() != a.Length() || !StringUtils::IsEqual(d.First(), a.First(), a.Length())) o += "!str3";
+    }
+    (void)ptr;
+}
+
 static const V *ptr_of(long long id) { return (id >= 0 && id < 4) ? &POOL[id] : nullptr; }
 
 static std::string run_case(const std::string &line) {
@@ -432,7 +510,7 @@ static std::string run_case(const std::string &line) {
                 tmp->~V();
                 break;
             }
-            case 17: { Target t = rd_target(c); V *d = resolve(vars, t); if (!d) { skipped = true; break; } read_value(*d, own); break; }
+            case 17: { Target t = rd_target(c); V *d = resolve(vars, t); if (!d) { skipped = true; break; } read_value(*d, own); extra_reads(*d, own); break; }
             case 18: {
                 Target t1 = rd_target(c); Target t2 = rd_target(c); Str k = c.str();
                 if (related(t1, t2)) { skipped = true; break; }
